@@ -147,7 +147,8 @@ def run(ctx):
         sub = H.Subroutine(instructions=[rnd() for _ in range(rng.randrange(1, 6))], app_id=rng.randrange(65536))
         steps = []
         for _step in range(rng.randrange(2, 6)):
-            kind = rng.choice(["observe", "append", "replace_item", "set_field", "set_app", "pop", "len"])
+            kind = rng.choice(["observe", "append", "replace_item", "set_field", "set_app", "pop", "len",
+                               "instantiate"])
             steps.append(kind)
             try:
                 if kind == "observe":
@@ -163,6 +164,8 @@ def run(ctx):
                     sub.instructions.pop(rng.randrange(len(sub.instructions)))
                 elif kind == "set_app":
                     sub.app_id = rng.randrange(65536)
+                elif kind == "instantiate":
+                    sub.instantiate(app_id=rng.randrange(65536))
                 elif kind == "set_field" and sub.instructions:
                     i = sub.instructions[rng.randrange(len(sub.instructions))]
                     fs = H.T.operand_fields(type(i))
@@ -189,6 +192,48 @@ def run(ctx):
             res.failures.append({"what": "after in-place edits the encoded bytes do not decode to the current subroutine",
                                  "kf": None, "input": {"fl": fname, "steps": steps, "current": want,
                                                        "decoded": [H.instr_to_json(i) for i in rs.instructions] if rs else None}})
+    # -- stream B3: decoder histories — one Deserializer object (and the module-level `deserialize`)
+    # used for many buffers, some of them rejected half-way: every accepted buffer must decode to
+    # exactly what a fresh decoder gives
+    from netqasm.lang.parsing.binary import Deserializer, deserialize
+    n_dh = 150 if ctx.thorough else 30
+    for _ in range(n_dh):
+        fname = rng.choice(["nv", "reids", "vanilla"])
+        pool = [c for c in H.flavour_classes(fname) if not (fname == "vanilla" and c.id == 41)]
+        keep = Deserializer(H.FLAVOURS[fname]())
+        log = []
+        for _step in range(rng.randrange(3, 8)):
+            instrs = []
+            for _k in range(rng.randrange(1, 6)):
+                c = rng.choice(pool)
+                fs = H.T.operand_fields(c)
+                instrs.append(c(**{f.name: rng.choice(H.values_for(k, rng, 2)) for f, k in zip(fs, H.shape_of(c))}))
+            raw = bytes(H.Subroutine(instructions=instrs, app_id=rng.randrange(65536)))
+            corrupt = rng.random() < 0.4
+            if corrupt and len(raw) > 11:
+                # unknown opcode in a later command, or a truncated buffer
+                b = bytearray(raw)
+                if rng.random() < 0.7:
+                    b[4 + 7 * rng.randrange(1, len(instrs))] = rng.choice([200, 238, 255])
+                else:
+                    b = b[:-rng.randrange(1, 7)]
+                raw = bytes(b)
+            use_default = fname == "vanilla" and rng.random() < 0.5
+            log.append({"corrupt": corrupt, "default_deserialize": use_default, "n": len(instrs)})
+            try:
+                got = deserialize(raw) if use_default else keep.deserialize_subroutine(raw)
+            except Exception:
+                got = None
+            fresh = H.real_decode_sub(fname, raw)
+            res.evaluations += 1
+            res.count("decoder-history-step")
+            a = None if got is None else ([H.instr_to_json(i) for i in got.instructions], got.app_id)
+            b2 = None if fresh is None else ([H.instr_to_json(i) for i in fresh.instructions], fresh.app_id)
+            if a != b2:
+                res.failures.append({"what": "a decoder that was used before decodes a buffer differently from a fresh decoder",
+                                     "kf": None, "input": {"fl": fname, "history": log, "reused": a, "fresh": b2}})
+                break
+        res.nontrivial.add(("dechist", fname, len(log), sum(x["corrupt"] for x in log)))
     # -- stream C: malformed / arbitrary byte strings
     n_mal = 3000 if ctx.thorough else 300
     raws = []
